@@ -427,6 +427,8 @@ pub fn parent_main(check: &dyn Check, tier: Tier) -> i32 {
 
 	let mut merged = Ctx::default();
 	let mut machinery_errors: Vec<String> = vec![];
+	let mut incomplete: Vec<String> = vec![];
+	const MAX_RESTARTS: u32 = 4;
 
 	struct Shard {
 		shard: u64,
@@ -510,11 +512,6 @@ pub fn parent_main(check: &dyn Check, tier: Tier) -> i32 {
 				pending -= 1;
 				continue;
 			};
-			if idx == u64::MAX || sh.restarts > 200 {
-				machinery_errors.push(format!("shard {}: too many restarts or bad index", sh.shard));
-				pending -= 1;
-				continue;
-			}
 			parent_failures.push(Failure {
 				sig: format!("{}: {}", kind, check.sig_hint(tier, idx)),
 				case: idx,
@@ -522,6 +519,14 @@ pub fn parent_main(check: &dyn Check, tier: Tier) -> i32 {
 			});
 			sh.skip.push(idx);
 			sh.restarts += 1;
+			if idx == u64::MAX || sh.restarts > MAX_RESTARTS {
+				incomplete.push(format!(
+					"shard {} abandoned after {} hung/aborted cases (each is reported); its remaining cases were not explored",
+					sh.shard, sh.restarts
+				));
+				pending -= 1;
+				continue;
+			}
 			spawn(sh);
 		}
 	}
@@ -589,7 +594,7 @@ pub fn parent_main(check: &dyn Check, tier: Tier) -> i32 {
 		samples.push(J::s(check.describe(tier, total - 1)));
 	}
 	let mut cov: Vec<(String, J)> = vec![];
-	let exhaustive = check.exhaustive() && machinery_errors.is_empty();
+	let exhaustive = check.exhaustive() && machinery_errors.is_empty() && incomplete.is_empty();
 	match check.level() {
 		Level::ModelChecking => {
 			cov.push(("states".into(), J::u(merged.states.len() as u64)));
@@ -640,7 +645,7 @@ pub fn parent_main(check: &dyn Check, tier: Tier) -> i32 {
 		("workers".into(), J::u(nshards)),
 		(
 			"machinery_errors".into(),
-			J::arr_str(machinery_errors.iter().cloned()),
+			J::arr_str(machinery_errors.iter().cloned().chain(incomplete.iter().cloned())),
 		),
 	]);
 	std::fs::create_dir_all(format!("{}/evidence", VERIF_DIR)).ok();
@@ -664,10 +669,17 @@ pub fn parent_main(check: &dyn Check, tier: Tier) -> i32 {
 		violations,
 		wall
 	);
+	for e in &incomplete {
+		eprintln!("INCOMPLETE: {}", e);
+	}
 	if !machinery_errors.is_empty() {
 		for e in &machinery_errors {
 			eprintln!("MACHINERY: {}", e);
 		}
+		return 2;
+	}
+	if !incomplete.is_empty() && violations == 0 {
+		// nothing new was found but part of the space was not explored: no verdict
 		return 2;
 	}
 	// vacuity guard: an exploration that saw a single outcome explored nothing
